@@ -16,7 +16,8 @@ RULE = ('hypothesis: circuit programs from the C03 grammar restricted to differe
         'the flat-parameter bridge on models with several parameters of different shapes, names and an unused parameter. Oracle: central finite differences of the forward value (step '
         '1e-5, tolerance 1e-6 max(1,|g|)); forward values themselves against dense references. Non-trivial = shared parameter / controlled-parametrised / placeholder / custom gate; '
         'spectrum class != generic; batch != (). Distinct = circuit signature / (function, spectrum class, field, batch).'
-        ' Circuits also contain a two-qubit user-defined parametrised gate on descending wires, placeholder tensors that are plain data (no grad) and one gate name frozen in the wrapper; relative entropy is differentiated with respect to the first, the second and both arguments; code words also as non-contiguous torch views.')
+        ' Circuits also contain a two-qubit user-defined parametrised gate on descending wires, placeholder tensors that are plain data (no grad) and one gate name frozen in the wrapper; relative entropy is differentiated with respect to the first, the second and both arguments; code words also as non-contiguous torch views.'
+        ' Constant gates re-parametrised after wrapping; two forward passes before one backward; sum of two circuits on one input; a kept hf_model_wrapper gradient compared after the next call; entropy of an unnormalised positive matrix.')
 ASSUMPTIONS = ['exactly rank-deficient PSD inputs are outside the claim (the square root is not differentiable there); near-deficient inputs (lambda_min in [1e-2,1e-1]) are included',
                'finite differences: step 1e-5 in float64, compared at 1e-6*max(1,|g|_inf) (1e-5 for the Pade logarithm whose forward is itself an approximation)',
                'custom gates of kind "custom" need a user supplied grad_backward and are outside the claim']
